@@ -274,6 +274,12 @@ func render(v reflect.Value) string {
 	return "<" + v.Type().String() + ">"
 }
 
+// ExitAfterCase: the case has left goroutines behind that never end (a loader that does
+// not terminate); the replay process writes the results it has and exits after this case.
+func ExitAfterCase() { exitAfterCase = true }
+
+var exitAfterCase bool
+
 func Observe(label string, v any) {
 	n := cur.obsN[label]
 	cur.obsN[label] = n + 1
@@ -437,6 +443,11 @@ func RunReplay(t *testing.T, harnesses map[string]func()) {
 			}
 		}
 		results = append(results, res)
+		if exitAfterCase {
+			out, _ := json.MarshalIndent(results, "", " ")
+			os.WriteFile(os.Getenv("ZZVERIF_OUT"), out, 0o644)
+			os.Exit(3)
+		}
 	}
 	out, _ := json.MarshalIndent(results, "", " ")
 	if err := os.WriteFile(os.Getenv("ZZVERIF_OUT"), out, 0o644); err != nil {
